@@ -166,6 +166,38 @@ Theorem C04_buffered_copy_presents_same_body_to_next_consumer :
 Proof. exact buffered_copy_rereads_same_body. Qed.
 Print Assumptions C04_buffered_copy_presents_same_body_to_next_consumer.
 
+(* The same at the level of request objects (operation OHandOn of model/ReqBody.v: the environ without the cache keys
+   is handed to a second Request, which reads its body at once).  The consumer is presented the first Content-Length
+   bytes of the buffered body, keeps them as its own body; the original goes on presenting its body; no stream that
+   existed before is touched; the copy is not read past byte Content-Length. *)
+Theorem C04_hand_on_presents_buffered_body :
+  forall buf, 0 < buf ->
+  forall w r rq c k,
+    nth_error (w_reqs w) r = Some rq -> r_failed rq = false -> r_cache rq = Some c ->
+    let body := firstn (Z.to_nat (r_cl rq)) c in
+    exists w' s',
+      step buf None w (OHandOn r k) = (w', OutBytes (take_opt k body))
+      /\ cached w' (length (w_reqs w)) body
+      /\ cached w' r c
+      /\ w_streams w' = w_streams w ++ [s']
+      /\ pos s' = Nat.min (Z.to_nat (r_cl rq)) (length c)
+      /\ reqs_ok buf (Z.to_nat (r_cl rq)) (reqs s').
+Proof. exact hand_on_lemma. Qed.
+Print Assumptions C04_hand_on_presents_buffered_body.
+
+(* After any passive history: first access, then the environ handed on — both are presented the first Content-Length
+   bytes of the server stream. *)
+Theorem C04_next_consumer_after_first_access :
+  forall buf, 0 < buf ->
+  forall data sc cl0 pre r rq k k',
+    forallb passive pre = true ->
+    let w := fst (run buf None (world_init data sc cl0) pre) in
+    nth_error (w_reqs w) r = Some rq ->
+    let body := firstn (Z.to_nat (r_cl rq)) data in
+    snd (run buf None w [OBody r k; OHandOn r k']) = [OutBytes (take_opt k body); OutBytes (take_opt k' body)].
+Proof. exact hand_on_after_first_access. Qed.
+Print Assumptions C04_next_consumer_after_first_access.
+
 (* Record (documented behaviour, DESIGN 0.6): a copy taken BEFORE the first
    access shares the one unread server stream with the original, so the object
    that reads second is presented the bytes that follow the body. *)
